@@ -10,7 +10,7 @@ EXPLANATION = ("Real Motl.clean_by_distance (+geom.point_pairwise_dist, get_motl
                "domination and group-independence by SMT. Real tmana.scores_extract_particles on a small score map with symbolic (distinct) voxel "
                "scores, symbolic threshold and symbolic angle-list entries; voxel coordinates are concrete after the threshold fork, so the real scipy "
                "KD-tree and sklearn DBSCAN run unmodified.")
-ASSUMPTIONS = ["clean_by_distance: N = 3 particles on a symbolic line (distances are |dx|: linear arithmetic) and N = 2 (quick) / 3 (thorough) in 3-D; scores pairwise distinct; "
+ASSUMPTIONS = ["clean_by_distance: N = 3 particles on a symbolic line (distances are |dx|: linear arithmetic) and N = 2 (quick) / 3 (thorough) in 3-D; scores pairwise distinct, and jobs with ties=True where equal scores are allowed; "
                "no pair at distance exactly d (ties excluded by the property); groups from {1,2} via solver forks; d in (0,100]",
                "score maps 2x2x1 (quick) / 3x2x1, 2x2x2 (thorough) with distinct scores; diameter in {1, 1.5, 2.5}; angle numbering 0/1; zxz/zzx"]
 OUTSIDE = ["N > 3 particles in 3-D / > 4 on a line, maps > 8 voxels (the path count grows as N! * 2^pairs)", "dist_mask variant of clean_by_distance", "float rounding (A0)"]
@@ -31,7 +31,7 @@ def _conc(env, v):
     return float(v)
 
 
-def h_clean(env, n=3, line=True, feature="tomo_id", keep_greater=True, groups=True):
+def h_clean(env, n=3, line=True, feature="tomo_id", keep_greater=True, groups=True, ties=False):
     cm = env.module("cryomotl")
     rows = []
     for i in range(n):
@@ -51,14 +51,17 @@ def h_clean(env, n=3, line=True, feature="tomo_id", keep_greater=True, groups=Tr
 
     def dist2(a, b):
         return sum((pos[a][k] - pos[b][k]) * (pos[a][k] - pos[b][k]) for k in range(3))
-    env.assume(env.and_(*[env.not_(env.eq(rows[a]["score"], rows[b]["score"])) for a in range(n) for b in range(a + 1, n)]))
+    if not ties:
+        env.assume(env.and_(*[env.not_(env.eq(rows[a]["score"], rows[b]["score"])) for a in range(n) for b in range(a + 1, n)]))
+    # with ties=True equal scores are allowed (fresh lists carry score 0 everywhere; integer-valued metrics): the property asks
+    # for an EQUAL OR BETTER close survivor, and for separation of the survivors whatever the scores are
     env.assume(env.and_(*[env.not_(env.eq(dist2(a, b), d * d)) for a in range(n) for b in range(a + 1, n)]))
     m = mk_motl(env, cm, rows)
     m.clean_by_distance(d, feature, metric_id="score", keep_greater=keep_greater)
     kept = [float(v) for v in m.df["subtomo_id"]]
     env.check("survivors_are_input_particles", env.true() if (len(set(kept)) == len(kept) and all(1 <= k <= n for k in kept)) else _false(env))
     K = [i for i in range(n) if float(i + 1) in kept]
-    better = (lambda a, b: env.gt(rows[a]["score"], rows[b]["score"])) if keep_greater else (lambda a, b: env.lt(rows[a]["score"], rows[b]["score"]))
+    better = (lambda a, b: env.ge(rows[a]["score"], rows[b]["score"])) if keep_greater else (lambda a, b: env.le(rows[a]["score"], rows[b]["score"]))
     for a, b in itertools.combinations(K, 2):
         if rows[a][feature] == rows[b][feature]:
             env.check("survivors_%d_%d_separated" % (a, b), env.ge(dist2(a, b), d * d))
@@ -81,7 +84,7 @@ def h_clean(env, n=3, line=True, feature="tomo_id", keep_greater=True, groups=Tr
         env.check("group_%d_independent_of_other_groups" % int(g), env.true() if alone == together else _false(env))
 
 
-MAPS = {"2x2x1": (2, 2, 1), "3x2x1": (3, 2, 1), "2x2x2": (2, 2, 2)}
+MAPS = {"3x1x1": (3, 1, 1), "2x2x1": (2, 2, 1), "3x2x1": (3, 2, 1), "2x2x2": (2, 2, 2)}
 
 
 def h_peaks(env, shape="2x2x1", diameter=1.5, numbering=0, order="zxz"):
@@ -152,6 +155,9 @@ def jobs(tier, seed):
     j = [("h_clean", {"n": 3, "line": True, "feature": "tomo_id", "keep_greater": True}),
          ("h_clean", {"n": 3, "line": True, "feature": "class", "keep_greater": False}),
          ("h_clean", {"n": 2, "line": False, "feature": "object_id", "keep_greater": True}),
+         ("h_clean", {"n": 3, "line": True, "feature": "tomo_id", "keep_greater": True, "groups": False, "ties": True}),
+         ("h_clean", {"n": 2, "line": True, "feature": "class", "keep_greater": False, "ties": True}),
+         ("h_peaks", {"shape": "3x1x1", "diameter": 1.5, "numbering": 0, "order": "zxz"}),
          ("h_peaks", {"shape": "2x2x1", "diameter": 1.5, "numbering": 0, "order": "zxz"}),
          ("h_peaks", {"shape": "2x2x1", "diameter": 1.0, "numbering": 1, "order": "zzx"})]
     if tier == "thorough":
